@@ -35,13 +35,17 @@ _CMPOPS = {
 
 
 class Event:
-    __slots__ = ('kind', 'idx', 'line', 'guards', 'loops', 'withs', 'trys', 'node', 'd')
+    __slots__ = ('kind', 'idx', 'line', 'guards', 'gkinds', 'loops', 'withs', 'trys', 'node', 'd')
 
     def __init__(self, kind, idx, line, guards, loops, withs, trys, node, d):
         self.kind = kind
         self.idx = idx
         self.line = line
-        self.guards = guards
+        # guards: (cond, polarity) pairs; gkinds: origin of each guard -
+        # 'if' (lexically enclosing test) or the way the other arm left the
+        # block ('raise', 'return', 'continue', 'break') for path guards
+        self.guards = tuple((c, p) for c, p, k in guards)
+        self.gkinds = tuple(k for c, p, k in guards)
         self.loops = loops
         self.withs = withs
         self.trys = trys
@@ -65,6 +69,12 @@ class Event:
                                    or 'BaseException' in types):
                 return True
         return False
+
+    @property
+    def cguards(self):
+        """Guards under which the event may be *skipped* while the function goes
+        on normally: everything except path guards whose other arm raises."""
+        return tuple(g for g, k in zip(self.guards, self.gkinds) if k != 'raise')
 
     def guard_terms(self, polarity=None):
         return [g for g, p in self.guards if polarity is None or p == polarity]
@@ -407,12 +417,12 @@ class FuncAnalysis:
         c = self.ev(s.test)
         self._emit('branch', s, cond=c)
         pre = dict(self.env)
-        self._guards.append((c, True))
+        self._guards.append((c, True, 'if'))
         st_a = self._block(s.body)
         self._guards.pop()
         env_a = self.env
         self.env = dict(pre)
-        self._guards.append((c, False))
+        self._guards.append((c, False, 'if'))
         st_b = self._block(s.orelse) if s.orelse else None
         self._guards.pop()
         env_b = self.env
@@ -422,11 +432,11 @@ class FuncAnalysis:
             return (st_a if st_a == st_b else 'return'), 0
         if st_a is not None:
             self.env = env_b
-            self._guards.append((c, False))
+            self._guards.append((c, False, st_a))
             return None, 1
         if st_b is not None:
             self.env = env_a
-            self._guards.append((c, True))
+            self._guards.append((c, True, st_b))
             return None, 1
         self.env = self._merge(c, env_a, env_b)
         return None, 0
@@ -436,7 +446,7 @@ class FuncAnalysis:
         self._n_loop += 1
         lid = f'L{self._n_loop}'
         li = LoopInfo(lid, node, kind, it, self._loops[-1] if self._loops else None,
-                      tuple(self._guards))
+                      tuple((c, p) for c, p, k in self._guards))
         li.break_envs = []
         self.loops[lid] = li
         return li
@@ -495,7 +505,7 @@ class FuncAnalysis:
         self.env = new_env
         if s.orelse:
             li.has_else = True
-            self._guards.append((('unk', 'loop-else', li.id), True))
+            self._guards.append((('unk', 'loop-else', li.id), True, 'if'))
             self._block(s.orelse)
             self._guards.pop()
 
@@ -532,7 +542,7 @@ class FuncAnalysis:
         def bind():
             li.iter = self.ev(s.test)
             if not (li.iter[0] == 'c' and li.iter[1] is True):
-                self._guards.append((li.iter, True))
+                self._guards.append((li.iter, True, 'if'))
                 li._pushed = True
             else:
                 li._pushed = False
@@ -616,7 +626,7 @@ class FuncAnalysis:
                 self.env[h.name] = self._unk('exc')
             hname = ast.unparse(h.type) if h.type is not None else ''
             self._trys.append((types, 'handler', tid))
-            self._guards.append((('unk', 'except:' + hname, tid), True))
+            self._guards.append((('unk', 'except:' + hname, tid), True, 'if'))
             st_h = self._block(h.body)
             self._guards.pop()
             self._trys.pop()
@@ -771,10 +781,10 @@ class FuncAnalysis:
 
     def _e_IfExp(self, n):
         c = self.ev(n.test)
-        self._guards.append((c, True))
+        self._guards.append((c, True, 'if'))
         a = self.ev(n.body)
         self._guards.pop()
-        self._guards.append((c, False))
+        self._guards.append((c, False, 'if'))
         b = self.ev(n.orelse)
         self._guards.pop()
         return T.ite(c, a, b)
@@ -797,16 +807,24 @@ class FuncAnalysis:
         e = self._emit('yield_from', n, value=v)
         return ('yieldv', e.idx)
 
+    def _height(self, terms):
+        h = 0
+        for t in terms:
+            for x in T.walk(t):
+                if x[0] == 'bv' and isinstance(x[2], int) and x[2] > h:
+                    h = x[2]
+        return h
+
     def _e_Lambda(self, n):
-        self._bvdepth += 1
-        d = self._bvdepth
         saved = {}
-        names = []
+        temps = []
         a = n.args
         for i, arg in enumerate(list(a.posonlyargs) + list(a.args) + list(a.kwonlyargs)):
             saved[arg.arg] = self.env.get(arg.arg, None)
-            self.env[arg.arg] = ('bv', f'l{i}', d)
-            names.append(f'l{i}')
+            self._n_unk += 1
+            tv = ('bv', f't{self._n_unk}', 0)
+            self.env[arg.arg] = tv
+            temps.append(tv)
         n_ev = len(self.events)
         body = self.ev(n.body)
         # events inside a lambda body are not executed here: mark them
@@ -817,21 +835,22 @@ class FuncAnalysis:
                 self.env.pop(k, None)
             else:
                 self.env[k] = v
-        self._bvdepth -= 1
-        return ('lam', tuple(names), body)
+        h = self._height([body]) + 1
+        ren = {tv: ('bv', f'l{i}', h) for i, tv in enumerate(temps)}
+        body = T.subst(body, ren)
+        return ('lam', tuple(f'l{i}' for i in range(len(temps))), body)
 
     def _comp(self, n, kind, elt_nodes):
-        self._bvdepth += 1
-        d = self._bvdepth
         saved = {}
-        counter = [0]
+        temps = []
 
         def bindpat(t):
             if isinstance(t, ast.Name):
                 if t.id not in saved:
                     saved[t.id] = self.env.get(t.id, None)
-                bv = ('bv', f'c{counter[0]}', d)
-                counter[0] += 1
+                self._n_unk += 1
+                bv = ('bv', f't{self._n_unk}', 0)
+                temps.append(bv)
                 self.env[t.id] = bv
                 return bv
             if isinstance(t, (ast.Tuple, ast.List)):
@@ -840,18 +859,24 @@ class FuncAnalysis:
                 return ('star', bindpat(t.value))
             return self._unk('comp-target')
         gens = []
+        n_ev = len(self.events)
         for g in n.generators:
             it = self.ev(g.iter)
             pat = bindpat(g.target)
             conds = tuple(self.ev(c) for c in g.ifs)
             gens.append(('gen', pat, it, conds))
         elts = [self.ev(e) for e in elt_nodes]
+        for e in self.events[n_ev:]:
+            e.d['in_comp'] = True
         for k, v in saved.items():
             if v is None:
                 self.env.pop(k, None)
             else:
                 self.env[k] = v
-        self._bvdepth -= 1
+        h = self._height(list(gens) + elts) + 1
+        ren = {tv: ('bv', f'c{i}', h) for i, tv in enumerate(temps)}
+        gens = tuple(T.subst(g, ren) for g in gens)
+        elts = [T.subst(e, ren) for e in elts]
         return tuple(gens), elts
 
     def _e_ListComp(self, n):
